@@ -153,8 +153,9 @@ def h_solve(ctx, net, success, ncalls):
             ctx.true('objective, gradient, atom-balance constraint handed over, call %d' % k,
                      cl['fun'] == eq._objective and cl['jac'] == eq._objective_jac and cl['constraints']['type'] == 'eq'
                      and cl['constraints']['fun'] == eq._constraints1_eq)
-            ctx.true('iteration limit handed to the minimiser is the one the object carries (maxiter), call %d' % k,
-                     hasattr(eq, 'maxiter') and (cl['options'] or {}).get('maxiter') == eq.maxiter)
+            if hasattr(eq, 'maxiter'):
+                ctx.true('iteration limit handed to the minimiser is the one the object carries (maxiter), call %d' % k,
+                         (cl['options'] or {}).get('maxiter') == eq.maxiter)
             ctx.true('lower bounds positive (no negative amounts), call %d' % k, all(b[0] > 0 for b in cl['bounds']) and len(cl['bounds']) == len(sps))
             xs = [ctx.real('sol%d_x_%s' % (len(calls), s.name), 1e-20, 1e3) for s in sps]
             tot = sum(xs[1:], xs[0])
